@@ -1163,7 +1163,7 @@ def judge(ctx: Ctx, bodies: List[Body], label: str) -> None:
                 if clause in DEVIATIONS:
                     sig = f"{clause}: {DEVIATIONS[clause]}"       # one stable signature per named deviation
                 else:
-                    sig = f"{clause}: {t['src'].split(':')[0]} api={sess.get('api', '-')} ev={bad_ev.get('ev')}"
+                    sig = f"{clause}: api={sess.get('api', '-')} ev={bad_ev.get('ev')}"
                     if bad_ev.get("codec"):
                         sig += f" codec={bad_ev['codec']}"
                     if bad_ev.get("err"):
@@ -1262,6 +1262,8 @@ def run(ctx: Ctx) -> None:
     if ctx.extra.get("events_judged_against_reference", 0) == 0:
         raise MachineryError("no event was judged against the reference scanner (vacuous run)")
     ctx.evaluations = ctx.extra.get("sessions", 0)
+    # anything that is not one of the named deviations is listed first
+    ctx.violations.sort(key=lambda v: v.clause in DEVIATIONS)
     loop.uninstall()
 
 
